@@ -59,19 +59,21 @@ V_ENSURES(dl == NULL || dl->mp == NULL || MP_WF(dl->mp)) /*@C17.multipart_get_bo
 /* ---- multipart_extract (C17: the part-header scanner on arbitrary body bytes; C05: what it hands to dl_write_range) ----
  * MPX_DL: the download state behind the parser is the one dl_write_range expects (contracts/dl_range.h); the
  * requested-range list itself is opaque here (multipart.c never looks at it): one ghost-named entry g_dr1 stands
- * for "the chunk being filled, if any".  The transport hands over at most 16 KiB per invocation (C17).       */
+ * for "the chunk being filled, if any".  The transport hands over at most 16 KiB per invocation (C17).
+ * Specified for dl != NULL with a context (with NULL the function returns 0 at once; history expressions
+ * about dl->zck cannot be guarded in CBMC 6.11). */
 #define MPX_LMAX 16384
-#define MPX_DL(dl) ((dl)->zck == NULL || (DL_CTL(dl) && DL_STATE_OR_ERR(dl)))
+#define MPX_DL(dl) (DL_CTL(dl) && DL_STATE_OR_ERR(dl))
 size_t multipart_extract(zckDL *dl, char *b, size_t l)
-V_REQUIRES(dl == NULL || (DL_MP_CTX(dl) && (dl->boundary == NULL || STR_TERMINATED(dl->boundary)) && MPX_DL(dl)))
+V_REQUIRES(dl != NULL && DL_MP_CTX(dl) && dl->zck != NULL && (dl->boundary == NULL || STR_TERMINATED(dl->boundary)) && MPX_DL(dl))
 V_REQUIRES(l <= MPX_LMAX && (l == 0 || __CPROVER_rw_ok(b, l)))
-V_ASSIGNS(dl != NULL: dl->dl_regex; dl != NULL: dl->end_regex; dl != NULL && dl->mp != NULL: *dl->mp; l > 0: __CPROVER_object_upto(b, l); dl != NULL && dl->zck != NULL: DL_RANGE_ASSIGNS(dl))
-V_FREES(dl != NULL && dl->mp != NULL: dl->mp->buffer; dl != NULL && dl->zck != NULL: dl->zck->check_chunk_hash.ctx)
-V_ENSURES(dl == NULL || DL_RX_INV(dl)) /*@C17.multipart_extract.no_uncompiled_pattern_left_behind_on_any_return*/
-V_ENSURES(dl == NULL || dl->mp == NULL || MP_WF(dl->mp)) /*@C17.multipart_extract.carried_buffer_length_equals_its_allocation_on_every_return*/
+V_ASSIGNS(dl->dl_regex; dl->end_regex; dl->mp != NULL: *dl->mp; l > 0: __CPROVER_object_upto(b, l); DL_RANGE_ASSIGNS(dl))
+V_FREES(dl->mp != NULL: dl->mp->buffer; dl->zck->check_chunk_hash.ctx)
+V_ENSURES(DL_RX_INV(dl)) /*@C17.multipart_extract.no_uncompiled_pattern_left_behind_on_any_return*/
+V_ENSURES(dl->mp == NULL || MP_WF(dl->mp)) /*@C17.multipart_extract.carried_buffer_length_equals_its_allocation_on_every_return*/
 V_ENSURES(__CPROVER_return_value == 0 || __CPROVER_return_value >= l) /*@C17.multipart_extract.accepts_everything_or_reports_zero*/
-V_ENSURES(dl == NULL || dl->zck == NULL || MPX_DL(dl)) /*@C05,C17.multipart_extract.download_state_invariant_kept_on_every_return*/
-V_ENSURES(dl == NULL || dl->zck == NULL || V_OLD(dl->zck->error_state) == 0 || (__CPROVER_return_value == 0 && WW_SAME)) /*@C17,C12.multipart_extract.context_in_error_is_refused*/
+V_ENSURES(MPX_DL(dl)) /*@C05,C17.multipart_extract.download_state_invariant_kept_on_every_return*/
+V_ENSURES(V_OLD(dl->zck->error_state) == 0 || (__CPROVER_return_value == 0 && WW_SAME)) /*@C17,C12.multipart_extract.context_in_error_is_refused*/
 V_ENSURES(l == 0 || __CPROVER_rw_ok(b, l)) /*@C17.multipart_extract.the_callers_buffer_is_not_freed*/
 V_ENSURES(DR_FAIL_REPORTED1(g_dr1, __CPROVER_return_value) && DR_FAIL_REPORTED1(g_dr2, __CPROVER_return_value) && DR_FAIL_REPORTED1(g_dr3, __CPROVER_return_value)) /*@C05.multipart_extract.a_checksum_mismatch_makes_the_call_report_zero*/
 V_ENSURES(DR_VALID_KEPT1(g_dr1) && DR_VALID_KEPT1(g_dr2) && DR_VALID_KEPT1(g_dr3)) /*@C05.multipart_extract.valid_chunks_stay_valid*/
